@@ -51,7 +51,14 @@ def lt : Ext → Ext → Prop
   | fin _, pinf => True
   | fin x, fin y => x < y
 
+/-- IEEE `≤`: false whenever a NaN is involved -/
+def le (a b : Ext) : Prop := lt a b ∨ (a = b ∧ a ≠ nan)
+
 noncomputable instance : Add Ext := ⟨add⟩
+instance : LE Ext := ⟨le⟩
+noncomputable instance : DecidableLE Ext := fun _ _ => Classical.propDecidable _
+/-- scientific literals denote the corresponding finite real -/
+noncomputable instance : OfScientific Ext := ⟨fun m s e => fin (OfScientific.ofScientific m s e)⟩
 noncomputable instance : Sub Ext := ⟨sub⟩
 instance : Neg Ext := ⟨neg⟩
 instance : LT Ext := ⟨lt⟩
